@@ -5,7 +5,8 @@
 s=$1; tier=${2:-quick}; c=${3:-${s%%-*}}
 V="$(cd "$(dirname "$0")/.." && pwd)"
 WT=$(mktemp -d /tmp/ownwt.XXXXXX); rmdir "$WT"
-git -C /repo worktree add -q --detach "$WT" HEAD || exit 2
+for try in 1 2 3 4 5 6; do git -C /repo worktree add -q --detach "$WT" HEAD 2>/dev/null && break; sleep $((try*2)); done
+[ -d "$WT" ] || { echo "$s NO-WORKTREE"; exit 2; }
 trap 'git -C /repo worktree remove --force "$WT" >/dev/null 2>&1; git -C /repo worktree prune; rm -rf "$WT.out"' EXIT
 git -C "$WT" apply "$V/seeded/$s/patch.diff" || { echo "$s PATCH-DOES-NOT-APPLY"; exit 3; }
 o=$(VERIF_OUT="$WT.out" VERIF_REPO="$WT" timeout 3000 "$V/run.sh" "$c" "$tier" 2>&1); rc=$?
